@@ -62,6 +62,20 @@ def run_histories(exe, hs, timeout=1500):
     rc, outs, err = vlib.run_driver(exe, "run", hs, timeout=timeout)
     if rc != 0 or len(outs) != len(hs):
         return None, (err or "")[-1500:]
+    # a block that missed its deadline on a loaded machine is not a hang of the node: the few histories that report
+    # one (no crash) are run once more, one at a time, with a generous deadline; a real deadlock hangs again
+    hung = [i for i, o in enumerate(outs) if not o.get("crash") and any(st.get("hang") for st in (o.get("steps") or []))]
+    if 0 < len(hung) <= 5 and len(hs) > len(hung):
+        import copy
+        for i in hung:
+            h2 = copy.deepcopy(hs[i])
+            for st in h2["steps"]:
+                if st.get("op") == "block":
+                    st["deadline_ms"] = max(int(st.get("deadline_ms") or 0), 30000)
+            h2["timeout_ms"] = max(int(h2.get("timeout_ms") or 0), 180000)
+            rc2, o2, _ = vlib.run_driver(exe, "run", [h2], timeout=timeout)
+            if rc2 == 0 and len(o2) == 1:
+                outs[i] = o2[0]
     return outs, ""
 
 
@@ -124,16 +138,17 @@ def gfcfg(flags):
         gbool("self_transfer" in flags), gbool("neg_amount" in flags), gbool("fee_after_body" in flags))
 
 
-XFLAGS = ["raw_add", "stub_promoted", "ibtp_no_revert", "failed_events", "stale_changer", "prev_from_memory", "revert_drops_tombstone"]
+XFLAGS = ["raw_add", "stub_promoted", "ibtp_no_revert", "failed_events", "stale_changer", "prev_from_memory", "revert_drops_tombstone",
+          "cross_index_nonce"]
 FFLAGS = ["self_transfer", "neg_amount", "fee_after_body"]
 
 
 def gxcfg(flags):
     return ("{| d_raw_add := %s; d_stub_promoted := %s; d_ibtp_no_revert := %s; d_failed_events := %s; "
-            "d_stale_changer := %s; d_prev_from_memory := %s; d_revert_drops_tombstone := %s; x_fees := %s |}") % (
+            "d_stale_changer := %s; d_prev_from_memory := %s; d_revert_drops_tombstone := %s; d_cross_index_nonce := %s; x_fees := %s |}") % (
         gbool("raw_add" in flags), gbool("stub_promoted" in flags), gbool("ibtp_no_revert" in flags),
         gbool("failed_events" in flags), gbool("stale_changer" in flags), gbool("prev_from_memory" in flags),
-        gbool("revert_drops_tombstone" in flags), gfcfg(flags))
+        gbool("revert_drops_tombstone" in flags), gbool("cross_index_nonce" in flags), gfcfg(flags))
 
 
 def genv(admins, price, genesis):
@@ -453,6 +468,40 @@ def ibtp_request_prog(ids, index, frm="1356:chainA:svc1", to="1356:chainB:svc1",
     return ("touch", ic, ("touch", CID["servicemgr"], ("cross", tm, ("raw", k_tx, "OBS", ("done",)), rest, rest)))
 
 
+# the two plugin contracts of harness/execframe/plugins.go (history cfg "plugins": true)
+EMITTER, RELAY = "x:0x00000000000000000000000000000000c07e0001", "x:0x00000000000000000000000000000000c07e0002"
+
+
+def op_plugin(ids, frm, method, chain, key=None, val=None):
+    """calls of the relay / emitter plugin contracts with their abstract bodies: the event is posted by the
+    contract called directly (Emit*) or by a CROSS-INVOKED one (Relay*), at depth 1 or 2, from an inner frame
+    that fails, or before the outer frame fails"""
+    e, r = acct_id(EMITTER), acct_id(RELAY)
+    ev = lambda k: ("ev", [(chain_id(chain), False)], k)
+    target, args = RELAY, [["s", chain]]
+    if method == "Emit":
+        target, prog = EMITTER, ("touch", e, ev(("done",)))
+    elif method == "EmitFail":
+        target, prog = EMITTER, ("touch", e, ev(("fail", False)))
+    elif method == "Relay":
+        prog = ("touch", r, ("cross", e, ("touch", e, ev(("done",))), ("done",), ("fail", False)))
+    elif method == "RelayDeep":
+        inner = ("touch", r, ("cross", e, ("touch", e, ev(("done",))), ("done",), ("fail", False)))
+        prog = ("touch", r, ("cross", r, inner, ("done",), ("fail", False)))
+    elif method == "RelayIgnore":
+        prog = ("touch", r, ("cross", e, ("touch", e, ev(("fail", False))), ("done",), ("done",)))
+    elif method == "RelayThenFail":
+        prog = ("touch", r, ("cross", e, ("touch", e, ev(("done",))), ("fail", False), ("fail", False)))
+    elif method == "RelaySet":
+        kr, ke = ids.key(RELAY, key), ids.key(EMITTER, key)
+        args = [["s", chain], ["s", key], ["s", "v%d" % val]]
+        prog = ("touch", r, ("jw", kr, val, ("cross", e, ("touch", e, ("jw", ke, val, ev(("done",)))), ("done",), ("fail", False))))
+    else:
+        raise ValueError(method)
+    return dict(tx={"t": "bvm", "from": frm, "to": target, "m": method, "args": args}, frm=frm, body=("bvm", prog),
+                invalid=False, tag="plugin_" + method)
+
+
 def op_ibtp_receipt_defect(frm, index, defect):
     """receipt (type RECEIPT_SUCCESS) for request chainA->chainB #index whose proof is absent / does not hash: rejected before execution"""
     return dict(tx={"t": "ibtp", "from": frm, "ibtp": ibtp(index, typ=1), "proof": {"kind": defect}}, frm=frm,
@@ -623,7 +672,7 @@ class Run:
         cnt = counter_entries(ob, chain_id)
         row = ("{| xc_cfgs := %s; xc_env := %s; xc_keys := %s; xc_bals := %s; xc_nonces := %s; xc_pre := %s; xc_txs := %s; "
                "xc_recs := %s; xc_okeys := %s; xc_obals := %s; xc_ononces := %s; xc_ocnt := %s; xc_other := %s; "
-               "xc_warm := %s; xc_meta := %s |}") % (
+               "xc_warm := %s; xc_posted := %s; xc_meta := %s |}") % (
             glist([gxcfg(f) for f in flagsets]), genv(self.admins, price, genesis),
             glist(["(%s, %s)" % (gkey(k), goptN(v)) for k, v in init_keys]),
             glist(["(%s, %s)" % (gNn(a), gZ(b)) for a, b in init_bals]),
@@ -636,6 +685,7 @@ class Run:
             glist(["(%s, (%s, %s, %s))" % (gNn(c), gNn(i), gbool(v), gbool(b)) for c, i, v, b in cnt]),
             gNn(other),
             "None" if warm is None else "(Some %s)" % glist([gkey(k) for k in warm]),
+            glist([glist([gNn(chain_id(p[0])) for p in (rc[6] if len(rc) > 6 else [])]) for rc in ob["receipts"]]),
             glist(["(%s, %s)" % (goptN(a), goptN(b)) for a, b in meta]))
         return row, dict(recs=recs, nontrivial=(any(recs) and not all(recs)), keys=keys)
 
